@@ -14,9 +14,11 @@ RULE = (
     "key k = n characters with character i = bit i of k (qubit 0 leftmost, least significant), values equal to "
     "*_by_int[k]; every Readout has as_str of length n with as_str[i] == bit i of as_int; results for string and "
     "int outputs are identical; relative_frequency_by_int[k] = number of recorded readouts with as_int == k.  "
-    "all-outcomes: for every register size n <= 6 (thorough <= 9) ALL 2^n outcomes are fed through "
-    "parse_jaqal_output_list as ints and as strings and through an emulated basis-state preparation (X on the set "
-    "bits) - exhaustive over outcomes.  Non-trivial = n >= 2 and some outcome whose bit string is not a palindrome. "
+    "all-outcomes: for every register size n <= 10 (thorough <= 12) ALL 2^n outcomes are fed through "
+    "parse_jaqal_output_list as ints and as strings and (n <= 6) through an emulated basis-state preparation (X on "
+    "the set bits) - exhaustive over outcomes.  renormalise: programs whose gates are scaled by 1 + e, "
+    "|e| <= 4e-7 (inside the documented clip-and-renormalise tolerance) must still report probabilities >= 0 that "
+    "sum to one within 1e-10.  Non-trivial = n >= 2 and some outcome whose bit string is not a palindrome. "
     "distinct = (text, outputs)."
 )
 ASSUMPTIONS = ["the int <-> string convention is the one documented in core/result.py: qubit 0 = least significant bit = leftmost character"]
@@ -160,8 +162,52 @@ def all_outcomes(case):
 
 
 def _enum(tier):
-    top = 9 if tier == "thorough" else 6
+    top = 12 if tier == "thorough" else 10
     return [{"n": n, "as": a} for n in range(1, top + 1) for a in ("int", "str", "mixed")]
+
+
+def renormalise(case):
+    """A slightly non-unitary native gate (scaled by 1+e): clip-and-renormalise must still give
+    a distribution."""
+    import warnings
+    from jaqalpaq.core import GateDefinition, Parameter, ParamType
+    from jaqalpaq.core.gatedef import BusyGateDefinition
+    from jaqalpaq.emulator import run_jaqal_circuit
+
+    n, e, pattern = case["n"], case["e"], case["pattern"]
+    x = np.array([[0, 1], [1, 0]], dtype=complex) * (1 + e)
+    h = np.array([[1, 1], [1, -1]], dtype=complex) / np.sqrt(2) * (1 + e)
+    nat = {
+        "prepare_all": BusyGateDefinition("prepare_all"),
+        "measure_all": BusyGateDefinition("measure_all"),
+        "XS": GateDefinition("XS", [Parameter("a", ParamType.QUBIT)], ideal_unitary=lambda: x),
+        "HS": GateDefinition("HS", [Parameter("a", ParamType.QUBIT)], ideal_unitary=lambda: h),
+    }
+    lines = [f"register q[{n}]", "subcircuit {"]
+    for i, g in enumerate(pattern):
+        lines.append(f"{'XS' if g else 'HS'} q[{i % n}]")
+    lines.append("}")
+    text = "\n".join(lines) + "\n"
+    c = parse(text, inject_pulses=nat)
+    np.random.seed(2)
+    with warnings.catch_warnings():
+        warnings.simplefilter("ignore")
+        from jaqalpaq.error import JaqalError
+
+        # beyond the documented CUTOFF_FAIL (2e-6 accumulated error) the library raises RuntimeError
+        st_, res = guard(run_jaqal_circuit, c, what="run_jaqal_circuit", allowed=(JaqalError, RuntimeError))
+    if st_ == "err":
+        raise Skip()
+    p = np.asarray(res.subcircuits[0].simulated_probability_by_int, dtype=float)
+    if (p < 0).any() or abs(p.sum() - 1) > 1e-10:
+        raise Violation("not-normalised", f"scale 1+{e}: min {p.min()} sum-1 = {p.sum() - 1:.3g}\n--- program:\n{text}", where="renormalise")
+    _check_views(res, n, f"--- program:\n{text}", "renormalise")
+    return {"nontrivial": e != 0 and n >= 1, "classes": ["sign:" + ("+" if e > 0 else "-" if e < 0 else "0")], "key": repr(case), "sample": {"text": text, "scale": 1 + e}}
+
+
+def _renorm_gen(ch):
+    n = ch.int(1, 3)
+    return {"n": n, "e": ch.pick([1, -1]) * ch.pick([1e-9, 3e-9, 1e-8, 1e-7, 4e-7, 0.0]), "pattern": [ch.int(0, 1) for _ in range(ch.int(1, 5))]}
 
 
 def parts():
@@ -169,6 +215,7 @@ def parts():
 
     big = os.environ.get("VERIF_TIER") == "thorough"
     return [
+        Part("renormalise", gen.cases(_renorm_gen), renormalise, quick=300, thorough=5000),
         Part("views", view_cases(7 if big else 5), views, quick=2500, thorough=40000, min_nontrivial=0.2),
         Part("all-outcomes", None, all_outcomes, quick=0, thorough=0, exhaustive=_enum, shards=6),
     ]
